@@ -1,9 +1,9 @@
-\* exhaustive design check, quick tier
+\* exhaustive design check, thorough tier
 SPECIFICATION SpecT
 CONSTANTS
-  MaxProcs = 3
-  Configs <- ConfigsQuick
-  MaxFaults = 1
+  MaxProcs = 4
+  Configs <- ConfigsThorough
+  MaxFaults = 2
   LockedClaim = TRUE
   CheckExit = TRUE
   KillChildren = TRUE
